@@ -298,6 +298,10 @@ func f6c() {
 		e.show(v)
 		tr, p := e.tally(d)
 		fmt.Printf("   the holder of the unit votes: tally yes=%s panic=%q\n", tr.YesCount, p)
+		// the same state makes the x/distribution hook inside Unbond / Delegate divide by zero as well
+		fmt.Printf("   the holder burns its unit -> %v\n", errS(e.burn(d, v, 1)))
+		got2, err2 := e.mint(op, v, 1)
+		fmt.Printf("   (operator mints 1 -> %v %v)\n", got2, errS(err2))
 		return
 	}
 	fmt.Println("   (no rate among the 50 tried loses the token of a 1 ukava mint)")
